@@ -388,3 +388,22 @@ Proof.
   split; [eexists; split; [vm_compute; reflexivity|repeat split]|].
   repeat split; vm_compute; reflexivity.
 Qed.
+
+(* ---------------- per-dump values computed from the dump timestamp (numeric sensors) ---------------- *)
+(* f = any function of the dump timestamp that respects equality of rationals (interpolation of any sample list onto the
+   dump grid is one): its values on the preselected data set are its values on dumps a..b of the whole data set *)
+Lemma preselect_sensor_values {B : Type} (f : Q -> B) (eqB : B -> B -> Prop) :
+  (forall x y, x == y -> eqB (f x) (f y)) ->
+  forall tm n a b j d, (a <= b <= n)%nat -> (j < b - a)%nat ->
+  eqB (nth j (map f (timestamps_pre tm a b)) d) (nth j (slice a b (map f (timestamps_full tm n))) d).
+Proof.
+  intros Hf tm n a b j d Hab Hj.
+  rewrite <- map_slice.
+  assert (L1 : (j < List.length (timestamps_pre tm a b))%nat)
+    by (unfold timestamps_pre; rewrite map_length, length_zrange; exact Hj).
+  assert (L2 : (j < List.length (slice a b (timestamps_full tm n)))%nat).
+  { unfold slice, timestamps_full. rewrite firstn_length, skipn_length, map_length, length_zrange. lia. }
+  rewrite (nth_indep _ d (f 0)) by (rewrite map_length; exact L1).
+  rewrite (nth_indep (map f (slice a b _)) d (f 0)) by (rewrite map_length; exact L2).
+  rewrite !map_nth. apply Hf. apply (preselect_timestamps tm n a b j Hab Hj).
+Qed.
